@@ -23,5 +23,7 @@ open MdVerif.C05
 #print axioms C05X_stash_shape
 #print axioms C05X_partial_fenced
 #print axioms C05X_upto_ampsub_fenced
+#print axioms C05X_no_amp_substitute_all
+#print axioms C05X_fenced
 #print axioms C05X_nameChar_safe
 #print axioms C05X_attr_list_values_escaped
